@@ -54,7 +54,17 @@ func (r *Rng) BoundaryU64(extra ...uint64) uint64 {
 	for _, x := range extra {
 		pool = append(pool, x, x+1, x-1)
 	}
-	switch r.Intn(10) {
+	switch r.Intn(12) {
+	case 10, 11:
+		// byte-pattern values: every byte is one that a key encoding could mistake for structure
+		// ('/' separators 0x2f, NUL terminators, 0xff upper bounds, '-' and ':' of textual ids)
+		var v uint64
+		n := 1 + r.Intn(8)
+		for i := 0; i < n; i++ {
+			b := []uint64{0x2f, 0x00, 0xff, 0x01, 0x2d, 0x3a, 0x2f, uint64(r.Intn(256))}[r.Intn(8)]
+			v = v<<8 | b
+		}
+		return v
 	case 0, 1, 2, 3:
 		return pool[r.Intn(len(pool))]
 	case 4, 5:
